@@ -261,10 +261,10 @@ Definition fee_cond (b : bid) (dy fa : N) : Prop :=
   | Some f => exists keep, fee_for_rest b (c_amt f) (unspent b - dy) = Ok keep /\ keep <= held b /\ fa = held b - keep
   end.
 
-Lemma match_settles e st sender funds ask_id bid_id price size st' r :
+Lemma match_settles_full e st sender funds ask_id bid_id price size st' r :
   InvA st -> InvB st -> 1 <= size -> clean_match st bid_id price size ->
   execute_match FX e st sender funds ask_id bid_id price size = Ok (st', r) ->
-  exists c a b bp xp gross af dy fa,
+  exists c a b bp xp gross af dy fa bfee frefund,
     st_cfg st = Some c /\ In sender (cf_executors c) /\ funds = [] /\
     lookup ask_id (st_asks st) = Some a /\ lookup bid_id (st_bids st) = Some (SlotV3 b) /\
     price_of (b_price b) bp /\ dec_parse price = Some xp /\ positive_dec xp /\
@@ -281,11 +281,18 @@ Lemma match_settles e st sender funds ask_id bid_id price size st' r :
              else insert ask_id (ask_after a (a_size a - size)) (st_asks st))
             (if unfilled b - size =? 0 then remove bid_id (st_bids st)
              else insert bid_id (SlotV3 (mkbid (b_base b) (b_acc_base b + size) (b_acc_quote b + dy) (b_acc_fee b + fa)
-                                               (b_fee b) (b_id b) (b_owner b) (b_price b) (b_quote b))) (st_bids st)).
+                                               (b_fee b) (b_id b) (b_owner b) (b_price b) (b_quote b))) (st_bids st)) /\
+    (* the complete message list, in the amounts above: ask fee, bid fee, settlement, and -- below the bid's limit -- the
+       refund of (bid price - price) * size with the share of the fee no longer needed *)
+    r_msgs r = m_ask_fee e c (c_denom (b_quote b)) af ++ m_bid_fee e c (c_denom (b_quote b)) bfee ++
+               m_settle e a b size (gross - af) ++
+               (if gross <? dy then m_refund e b (dy - gross) frefund else []) /\
+    opt_amt bfee + opt_amt frefund = fa /\ (bfee <> None -> cf_bid_fee c <> None) /\
+    ((gross <? dy) = false -> frefund = None).
 Proof.
   intros HA HB Hs1 Hclean H.
   apply execute_match_inv in H as (c & a & b & ap & bp & xp & rb & gross_d & gross & af & bfee & fill & b' & rb' & imp &
-    Hc & Hex & Hf & Hla & Hlb & _ & Hap & Hbp & Hxp & Hrule & Hrb & Hsza & Hszb & Hm & Hfr & Hgr & Hafs & Hafle & Hbfee & _ & Hnp &
+    Hc & Hex & Hf & Hla & Hlb & _ & Hap & Hbp & Hxp & Hrule & Hrb & Hsza & Hszb & Hm & Hfr & Hgr & Hafs & Hafle & Hbfee & Hbfcfg & Hnp &
     Hfill & Himp & Hrb' & -> & ->).
   destruct (inv_bids st HB c bid_id _ Hc Hlb) as (b0 & Hb0 & Hok). injection Hb0 as <-.
   pose proof (inv_asks st HA c ask_id a Hc Hla) as (_ & _ & _ & _ & _ & _ & (ap0 & Hap0) & _).
@@ -334,7 +341,7 @@ Proof.
         + specialize (Hle o eq_refl). destruct (0 <? o - opt_amt bfee) eqn:E; cbn [opt_amt]; [lia|apply N.ltb_ge in E; lia].
         + lia.
       - subst bfee. subst ofee. reflexivity. }
-    exists c, a, b, bp, xp, gross, af, og, fa.
+    exists c, a, b, bp, xp, gross, af, og, fa, bfee, (fee_refund_of bfee ofee).
     split; [exact Hc|]. split; [exact Hex|]. split; [exact Hf|]. split; [exact Hla|]. split; [exact Hlb|]. split; [exact Hp0|].
     split; [exact Hxp|]. split; [exact Pxp|]. split; [exact Hsza|]. split; [exact Hszb|]. split; [exact Hnp|].
     split; [exact Hg|]. split; [exact Ho|]. split; [lia|]. split; [exact Hafle|]. split; [exists gross_d; auto|]. split; [exact Hfc|].
@@ -348,9 +355,13 @@ Proof.
       assert (E2 : ind d qd og = ind d qd gross + ind d qd (og - gross)).
       { rewrite <- ind_add. f_equal. lia. }
       lia. }
-    f_equal. apply remaining_base_ok in Hrb' as [-> _]. rewrite Hacc, Hfill. unfold unfilled, fa. cbn.
-    replace (c_amt (b_base b) - (b_acc_base b + size + 0)) with (c_amt (b_base b) - b_acc_base b - size) by lia.
-    destruct (c_amt (b_base b) - b_acc_base b - size =? 0); [reflexivity|]. do 3 f_equal; lia.
+    split.
+    { f_equal. apply remaining_base_ok in Hrb' as [-> _]. rewrite Hacc, Hfill. unfold unfilled, fa. cbn.
+      replace (c_amt (b_base b) - (b_acc_base b + size + 0)) with (c_amt (b_base b) - b_acc_base b - size) by lia.
+      destruct (c_amt (b_base b) - b_acc_base b - size =? 0); [reflexivity|]. do 3 f_equal; lia. }
+    split.
+    { cbn [r_msgs]. apply N.ltb_lt in Hlt. rewrite Hlt. reflexivity. }
+    split; [reflexivity|]. split; [exact Hbfcfg|]. intros Hx. apply N.ltb_lt in Hlt. congruence.
   - (* executed at the bid's limit *)
     destruct Himp as [-> ->].
     destruct (not_improved_is_bid_price ap bp xp Pap Pbp Hrule Elt) as [Pxp Hcross]. unfold pow10 in Hcross.
@@ -364,7 +375,7 @@ Proof.
     { unfold fee_cond. destruct (b_fee b) as [f|] eqn:Ef.
       - destruct Hcf as (keep & _ & Hk & Hkle & Hb1). exists keep. auto.
       - subst bfee. reflexivity. }
-    exists c, a, b, bp, xp, gross, af, gross, (opt_amt bfee).
+    exists c, a, b, bp, xp, gross, af, gross, (opt_amt bfee), bfee, (@None N).
     split; [exact Hc|]. split; [exact Hex|]. split; [exact Hf|]. split; [exact Hla|]. split; [exact Hlb|]. split; [exact Hp0|].
     split; [exact Hxp|]. split; [exact Pxp|]. split; [exact Hsza|]. split; [exact Hszb|]. split; [exact Hnp|].
     split; [exact Hg|]. split; [exact Ho|]. split; [lia|]. split; [exact Hafle|]. split; [exists gross_d; auto|]. split; [exact Hfc|].
@@ -373,9 +384,42 @@ Proof.
     split.
     { intros d. cbn [r_msgs]. rewrite !outflow_app, out_m_ask_fee, out_m_bid_fee, (out_m_settle e d a b size (gross - af) Hnp).
       fold qd. cbn [outflow fold_right]. pose proof (ind_sub d qd gross af Hafle) as E1. rewrite !ind_add. lia. }
-    f_equal. apply remaining_base_ok in Hrb' as [-> _]. rewrite Hfill. unfold unfilled. cbn.
-    replace (c_amt (b_base b) - (b_acc_base b + size)) with (c_amt (b_base b) - b_acc_base b - size) by lia.
-    reflexivity.
+    split.
+    { f_equal. apply remaining_base_ok in Hrb' as [-> _]. rewrite Hfill. unfold unfilled. cbn.
+      replace (c_amt (b_base b) - (b_acc_base b + size)) with (c_amt (b_base b) - b_acc_base b - size) by lia.
+      reflexivity. }
+    split.
+    { cbn [r_msgs]. rewrite N.ltb_irrefl. reflexivity. }
+    split; [cbn [opt_amt]; lia|]. split; [exact Hbfcfg|]. reflexivity.
+Qed.
+
+Lemma match_settles e st sender funds ask_id bid_id price size st' r :
+  InvA st -> InvB st -> 1 <= size -> clean_match st bid_id price size ->
+  execute_match FX e st sender funds ask_id bid_id price size = Ok (st', r) ->
+  exists c a b bp xp gross af dy fa,
+    st_cfg st = Some c /\ In sender (cf_executors c) /\ funds = [] /\
+    lookup ask_id (st_asks st) = Some a /\ lookup bid_id (st_bids st) = Some (SlotV3 b) /\
+    price_of (b_price b) bp /\ dec_parse price = Some xp /\ positive_dec xp /\
+    size <= a_size a /\ size <= unfilled b /\ a_class a <> Pending /\
+    gross * 10 ^ d_scale xp = d_mant xp * size /\          (* gross = execution price * size, exactly *)
+    dy * 10 ^ d_scale bp = d_mant bp * size /\             (* dy = bid price * size: quote consumed from the bid *)
+    gross <= dy /\ af <= gross /\ ask_fee_spec_exists c xp size af /\ fee_cond b dy fa /\
+    (forall d, inflow e d (r_msgs r) = 0) /\
+    (forall d, outflow e d (r_msgs r) =
+               ind d (c_denom (b_quote b)) (dy + fa) + ind d (a_base a) size +
+               match a_class a with Ready _ cb => ind d (c_denom cb) size | _ => 0 end) /\
+    st' = mkstate (st_cfg st) (st_ver st)
+            (if a_size a - size =? 0 then remove ask_id (st_asks st)
+             else insert ask_id (ask_after a (a_size a - size)) (st_asks st))
+            (if unfilled b - size =? 0 then remove bid_id (st_bids st)
+             else insert bid_id (SlotV3 (mkbid (b_base b) (b_acc_base b + size) (b_acc_quote b + dy) (b_acc_fee b + fa)
+                                               (b_fee b) (b_id b) (b_owner b) (b_price b) (b_quote b))) (st_bids st)).
+Proof.
+  intros HA HB Hs1 Hclean H.
+  destruct (match_settles_full e st sender funds ask_id bid_id price size st' r HA HB Hs1 Hclean H) as
+    (c & a & b & bp & xp & gross & af & dy & fa & bfee & frefund & H1 & H2 & H3 & H4 & H5 & H6 & H7 & H8 & H9 & H10 & H11 & H12 &
+     H13 & H14 & H15 & H16 & H17 & H18 & H19 & H20 & _).
+  exists c, a, b, bp, xp, gross, af, dy, fa. repeat (split; [assumption|]). assumption.
 Qed.
 
 Lemma match_conserves e st sender funds ask_id bid_id price size st' r :
